@@ -185,6 +185,9 @@ func init() {
 		Groups: []Group{
 			{Funcs: `^client\.newCql(Client|Server)Connection$|^\(\*client\.Cql(Client|Server)Connection\)\.(writeSegment|maybeSwitchToModernLayout)$|^\(\*client\.CqlClientConnection\)\.(addMultiSegmentPayload|readFrame)$`,
 				OnlyCt: true, AbstractConc: true, Classes: []string{"post", "pre", "nil", "index", "alloc", "typeassert", "frame", "cover"}},
+			// every envelope of a self-contained segment reaches the frame reader (only the postcondition is claimed here:
+			// the connection invariant across the reader's side effects is not re-established by these contracts)
+			{Funcs: `^\(\*client\.Cql(Client|Server)Connection\)\.readSelfContainedSegment$`, OnlyCt: true, AbstractConc: true, Classes: []string{"post", "cover"}},
 		},
 		Assume: []string{
 			"MECHANISM LEVEL ONLY: sockets, the two loops per connection, handshake sequencing, concurrent senders and an independent peer are outside what a per-call contract states; go statements in the constructors are ignored (the goroutines they start are not modelled), channels are opaque",
@@ -208,6 +211,45 @@ func init() {
 		}})
 }
 
+var layoutClasses = []string{"post", "pre", "cover", "frame", "inv-init", "inv-step", "auto-inv-init", "auto-inv-step", "unwind", "decreases", "auto-decreases"}
+
+func init() {
+	reg(&PropSpec{ID: "C05", Title: "Header-only and raw-body operations agree with the full codec (byte accounting and raw round trip)", DesignRef: "DESIGN.md §11 C05",
+		Groups: []Group{
+			{Funcs: `^\(\*frame\.codec\)\.(DecodeRawBody|DiscardBody|DecodeRawFrame|ConvertToRawFrame|ConvertFromRawFrame|DecodeBody|EncodeRawFrame|DecodeHeader|EncodeHeader)$`, OnlyCt: true, Classes: layoutClasses},
+			{Funcs: `^frame\.lemmaRawRoundTrip$`, OnlyCt: true, Classes: layoutClasses},
+			{Funcs: `Compressor\)\.(Compress|Decompress)WithLength$`, Classes: []string{"post", "frame", "pre"}},
+		},
+		Assume: []string{
+			"covered: DecodeRawBody and DiscardBody (seekable and plain sources) consume exactly Header.BodyLength bytes and refuse negative lengths; DecodeRawFrame = decoded header + exactly the declared bytes, unchanged; EncodeRawFrame = header bytes with BodyLength = len(body) + the body bytes unchanged; EncodeRawFrame then DecodeRawFrame returns the same header fields and body bytes; ConvertToRawFrame keeps the header object and declares the produced body's length; ConvertFromRawFrame keeps the header object; a compressed body is decompressed from at most BodyLength bytes (io.LimitReader) and body compressors touch only their two streams",
+			"NOT covered: that DecodeFrame and DecodeRawFrame+ConvertFromRawFrame yield equal message contents (a relational statement over two decodings of the body), and the re-encode clause for arbitrary decodable inputs (needs the per-message round trip of C01)",
+			"ASSUMED: io.Seeker's documented contract; io.CopyN/io.LimitReader/bytes.Buffer stream models; message decoders write to no pre-existing stream other than their source (assumes-assigns; the C18 discipline is what backs it)",
+			"for a seekable source shorter than the declared body, DiscardBody returns nil where the plain-reader path reports an error; the contract states 'consumes exactly BodyLength' only when that many bytes exist (the property quantifies over valid frames)",
+		}})
+	reg(&PropSpec{ID: "C02", Title: "Emitted bytes conform to the specification (frame header, rejection clause, scalar and string/bytes notations)", DesignRef: "DESIGN.md §11 C02",
+		Groups: []Group{
+			{Funcs: `^primitive\.(Write|Read)(Byte|Short|Int|Long|StreamId|Bytes|ShortBytes|String|LongString)$`, OnlyCt: true, Classes: layoutClasses},
+			{Funcs: `^primitive\.((Write|Read|LengthOf)UnsignedVint|(en|de)codeZigZag)$`, OnlyCt: true, Classes: layoutClasses},
+			{Funcs: `^\(\*frame\.codec\)\.(EncodeHeader|DecodeHeader|EncodeRawFrame|DecodeRawFrame)$`, OnlyCt: true, Classes: layoutClasses},
+			{Funcs: `^frame\.lemmaHeaderRoundTrip$`, OnlyCt: true, Classes: layoutClasses},
+		},
+		Assume: []string{
+			"the oracle is a transcription of the specifications into contract language (frame/contracts_verif.go: header layout, supported versions 2,3,4,5,0x41,0x42, request/response opcode tables; primitive/contracts_verif.go: big-endian [byte]/[short]/[int]/[long], stream id width by version, [string], [long string], [bytes] with null = -1, [short bytes]) - independent of the code under proof",
+			"covered: EncodeHeader emits exactly the specified bytes and refuses unsupported versions; DecodeHeader reads exactly those fields from exactly those bytes and accepts only supported versions and opcodes whose direction matches the direction bit (all 2^16 version/opcode bytes, all streams); every listed notation writer emits, and its reader accepts, exactly the specified bytes",
+			"NOT covered: the body layout of the individual messages (field order and presence per version), [value], [inet], [uuid], maps and lists, type descriptors; those parts of C02 remain undecided by this check; capability predicates per version are proved against spec tables under C19",
+		}})
+	reg(&PropSpec{ID: "C01", Title: "Frame round-trip fidelity (frame header, raw frames, table-spec flag)", DesignRef: "DESIGN.md §11 C01",
+		Groups: []Group{
+			{Funcs: `^frame\.lemma(Header|Raw)RoundTrip$`, OnlyCt: true, Classes: layoutClasses},
+			{Funcs: `^\(\*frame\.codec\)\.(EncodeHeader|DecodeHeader|EncodeRawFrame|DecodeRawFrame)$`, OnlyCt: true, Classes: layoutClasses},
+			{Funcs: `^message\.haveSameTable$|^message\.lemmaRoundTrip[A-Za-z]+$`, OnlyCt: true, Classes: append([]string{"nil", "index"}, layoutClasses...)},
+		},
+		Assume: []string{
+			"covered: for every header with a supported version, an opcode of the matching direction and (v2) a stream id in [-128,127], EncodeHeader succeeds into a buffer and DecodeHeader of those bytes succeeds and returns the same direction, version, flags, stream id, opcode and body length; the same with an opaque body of any length and content (raw frames); haveSameTable (which sets the GLOBAL_TABLES_SPEC flag that makes the decoder copy one keyspace/table into every column) is true exactly when all columns share keyspace and table",
+			"NOT covered: the round trip of message contents for the 17 message codecs (body prefix, per-message fields), compression (C08 covers the wrappers) - these parts of C01 remain undecided by this check; length agreement is C03, flags/body consistency C20",
+		}})
+}
+
 var lemmaClasses = []string{"post", "pre", "cover", "frame", "inv-init", "inv-step", "unwind"}
 
 func init() {
@@ -217,15 +259,20 @@ func init() {
 		Groups: []Group{
 			{Funcs: `^datacodec\.(write|read)(Int64|Int32|Int16|Int8|Bool|Float32|Float64)$`, OnlyCt: true, Classes: append([]string{"index", "alloc", "nil"}, lemmaClasses...)},
 			{Funcs: `^datacodec\.lemmaVarintCanonical$`, OnlyCt: true, Classes: lemmaClasses},
+			// [unsigned vint] / [vint] of the duration type: minimal size, prefix bits, big-endian payload, zig-zag
+			{Funcs: `^primitive\.((Write|Read|LengthOf)UnsignedVint|(en|de)codeZigZag)$`, OnlyCt: true, Classes: append([]string{"unwind"}, lemmaClasses...)},
 		},
 		Tests:   []BoundedTest{vb},
 		Bounded: []string{"varint (minimal two's complement of arbitrary-precision integers): the byte-level contracts of writeBigInt/readBigInt are ASSUMED by the proof and checked only by the bounded execution listed under bounded_executions"},
 		Assume: []string{
-			"NOT covered: decimal, duration, date offset, inet, uuid byte formats and the collection/tuple/UDT framing (their contracts are not written); vints are covered for length agreement in C03 only",
+			"covered in addition: [unsigned vint] and zig-zag [vint] of the duration type (minimal size against the specification's rule, prefix bits and big-endian payload on the write side for all 2^64 values; on the read side the value for encodings of up to 6 bytes and the byte count for all)",
+			"NOT covered: decimal scale prefix, duration component order, date offset, inet, uuid byte formats and the collection/tuple/UDT framing (their contracts are not written)",
 		}})
 	reg(&PropSpec{ID: "C11", Title: "CQL value codecs round-trip every value (scalar numeric and boolean codecs)", DesignRef: "DESIGN.md §4 C11",
 		Groups: []Group{
 			{Funcs: `^datacodec\.lemma(Bigint|Int|Smallint|Tinyint|Float|Double|Boolean|Varint)RoundTrip$`, OnlyCt: true, Classes: lemmaClasses},
+			// varint accepts every Go integer representation: each becomes the big integer of the same value and back
+			{Funcs: `^datacodec\.convert(To|From)BigInt$`, OnlyCt: true, Classes: lemmaClasses},
 		},
 		Tests:   []BoundedTest{vb},
 		Bounded: []string{"the varint round trip rests on the assumed contracts of writeBigInt/readBigInt (bounded execution only)"},
@@ -237,6 +284,9 @@ func init() {
 		Groups: []Group{
 			{Funcs: `^datacodec\.lemma(Bigint|Int|Smallint|Tinyint|Float|Double|Boolean)RoundTrip$`, OnlyCt: true, Classes: lemmaClasses},
 			{Funcs: `^datacodec\.read(Int64|Int32|Int16|Int8|Bool|Float32|Float64)$`, OnlyCt: true, Classes: lemmaClasses},
+			// the dispatchers themselves: a NULL is delivered as the zero value with no error whatever the accompanying
+			// value is (the date codec hands over a shifted value), a nil source is reported as NULL
+			{Funcs: `^datacodec\.convert(To|From)(Int(8|16|32|64)|Float(32|64)|Int32Date|Int64Time|Int64Timestamp|BigInt)$`, OnlyCt: true, Classes: lemmaClasses},
 		},
 		Assume: []string{
 			"covered: encoding an untyped nil gives a NULL that decodes with wasNull set, no error, and the destination zeroed, for the integer, float and boolean codecs and every integer/float destination; zero-length input is NULL for every fixed-width reader",
